@@ -348,6 +348,13 @@ def classify_expr(ctx, LF, f, e, depth=0, seen=None, narrow=None):
     if isinstance(e, ast.BinOp):
         a = classify_expr(ctx, LF, f, e.left, depth + 1, seen, narrow)
         b = classify_expr(ctx, LF, f, e.right, depth + 1, seen, narrow)
+
+        def scalar_text(x, c):
+            return c[0] == "TEXT" and not isinstance(x, (ast.List, ast.Tuple, ast.Set, ast.Dict, ast.ListComp, ast.SetComp, ast.DictComp, ast.GeneratorExp)) and ctx.r.expr_builtin(f, x) not in ("list", "tuple", "set", "dict")
+
+        if isinstance(e.op, (ast.Add, ast.Mod)) and (scalar_text(e.left, a) or scalar_text(e.right, b)):
+            # str + x / int + x: the other operand has the same scalar type, no object is reached
+            return "TEXT", "scalar arithmetic / concatenation"
         if a[0] in ("TREE", "LINK", "UNKNOWN") and b[0] in ("TREE", "LINK", "UNKNOWN") and a != b:
             return "LINK", f"one of {a[1]} | {b[1]}"
         return worst(a, b)
